@@ -21,31 +21,46 @@ type c08step struct {
 	n    int
 }
 
-// variants of the scenario (type, script)
+// variants of the scenario (type, entry modes of the three clients, script). In the
+// "classic" variants the creator uses Create and the others Subscribe; in the "soc" variants
+// all three enter with SubscribeOrCreate and a fourth client tries to Create the existing key
+// (it must be refused whatever fails meanwhile, and never yield a second datatype).
 var c08Variants = []struct {
 	typ    string
+	soc    bool
 	script []c08step
 }{
-	{"counter", c08Script(0)},
-	{"list", c08Script(1)},
-	{"doc", c08Script(2)},
-	{"map", c08Script(3)},
+	{"counter", false, c08Script(0, false)},
+	{"list", false, c08Script(1, false)},
+	{"counter", true, c08Script(0, true)},
+	{"doc", false, c08Script(2, false)},
+	{"map", false, c08Script(3, false)},
+	{"list", true, c08Script(1, true)},
+	{"doc", true, c08Script(2, true)},
 }
 
-func c08Script(v int) []c08step {
+func c08Script(v int, soc bool) []c08step {
 	s := []c08step{
 		{"open", 0, 0}, {"sync", 0, 0}, // create
 		{"op", 0, 2}, {"sync", 0, 0},
 		{"open", 1, 0}, {"sync", 1, 0}, // subscribe
 		{"op", 1, 1}, {"sync", 1, 0},
+	}
+	if soc {
+		s = append(s, c08step{"open", 3, 0}, c08step{"sync", 3, 0}) // Create on the existing key: refused
+	}
+	s = append(s, []c08step{
 		{"open", 2, 0}, {"sync", 2, 0},
 		{"op", 0, 1}, {"op", 2, 2}, {"sync", 2, 0},
 		{"tx", 1, 2}, {"sync", 1, 0},
 		{"sync", 0, 0}, // pushes 1 op and pulls
 		{"sync", 2, 0}, // pull only
-	}
+	}...)
 	if v%2 == 1 {
 		s = append(s, c08step{"op", 1, 3}, c08step{"sync", 1, 0}, c08step{"sync", 0, 0})
+	}
+	if soc {
+		s = append(s, c08step{"sync", 3, 0}) // the refused creator tries again at the end
 	}
 	return s
 }
@@ -67,16 +82,16 @@ func init() {
 		Level:       "fault_enumeration",
 		Workers:     16,
 		CaseTimeout: 180e9,
-		Rule: fmt.Sprintf("%d scenario variants (counter / list / document / map; 3 clients: create, two subscribers, pushes of 1-3 operations, a transaction, pull-only syncs). Phase 1 profiles the fault-free run and numbers every database command issued while serving each request, including those of the background snapshot goroutine. Phase 2 re-runs the scenario once per command index k and per fault kind: fail(k) = that command answers {ok:0}; sever(k) = the connection is closed before executing it and the server incarnation is dead from then on; sever-after(k) = it is executed, the reply is lost and the incarnation is dead; for sever kinds a new incarnation is started on the same store; the script continues and all clients retry to quiescence. Oracle: the faulted call returns (error or not) - no panic, no hang; every operation whose acknowledgement a client had applied is stored; store invariants of C06 hold after recovery (operation documents beyond the recorded end of log are reported); retries reach quiescence; every operation issued on a subscribed datatype is stored exactly once and all replicas, the server's rebuild and the replay of the stored log agree (i.e. the state is the one determined by the issued operations, as if no failure had happened); ",
+		Rule: fmt.Sprintf("%d scenario variants (counter / list / document / map; 3 clients: create + two subscribers, or all three entering with subscribe-or-create plus a fourth client whose Create of the existing key must stay refused and must never yield a second datatype; pushes of 1-3 operations, a transaction, pull-only syncs). Phase 1 profiles the fault-free run and numbers every database command issued while serving each request, including those of the background snapshot goroutine. Phase 2 re-runs the scenario once per command index k and per fault kind: fail(k) = that command answers {ok:0}; sever(k) = the connection is closed before executing it and the server incarnation is dead from then on; sever-after(k) = it is executed, the reply is lost and the incarnation is dead; for sever kinds a new incarnation is started on the same store; the script continues and all clients retry to quiescence. Oracle: the faulted call returns (error or not) - no panic, no hang; every operation whose acknowledgement a client had applied is stored; store invariants of C06 hold after recovery (operation documents beyond the recorded end of log are reported); retries reach quiescence; every operation issued on a subscribed datatype is stored exactly once and all replicas, the server's rebuild and the replay of the stored log agree (i.e. the state is the one determined by the issued operations, as if no failure had happened); ",
 			len(c08Variants)) +
 			"non-trivial = the fault hit a write command (insert / update / delete / findAndModify) or fell between the two writes of one commit; distinct = (variant, command index, fault kind)",
 		Assumptions: []string{
 			"quick and thorough tiers run the server in-process: a dead incarnation is approximated by severing its database connections and abandoning its service object (the in-process lock registry survives, which a real restart would clear)",
-			"the creator uses Create, the others Subscribe, and user operations are issued only on SUBSCRIBED datatypes, so that 'as if no failure had happened' is well defined (DESIGN.md §4 C08)",
+			"user operations are issued only on SUBSCRIBED datatypes, so that 'as if no failure had happened' is well defined for every entry mode (DESIGN.md §4 C08)",
 			"MongoDB is the in-memory stand-in; a failed command has no partial effect; insert / update are atomic per command",
 		},
 		Trusted:    []string{"fakemongo (fault plan, command log)", "fakemqtt", "harness transport (direct mode)"},
-		Cases:      func(t string) int { return tierN(t, 2, len(c08Variants)) * c08MaxCommands * len(c08Kinds) },
+		Cases:      func(t string) int { return tierN(t, 3, len(c08Variants)) * c08MaxCommands * len(c08Kinds) },
 		Floor:      func(t string) int { return tierN(t, 60, 150) },
 		Exhaustive: func(t string) bool { return true },
 		Run:        runC08,
@@ -110,8 +125,8 @@ func c08Execute(c *core.Case, variant, k int, kind string, log bool) (*c08run, s
 	if k > 0 && kind != "fail" {
 		w.b.Taint() // incarnations are restarted: do not hand this bed to the next case
 	}
-	run := &c08run{w: w, acked: map[int]uint64{}, dts: make([]*bed.DT, 3)}
-	for i := 0; i < 3; i++ {
+	run := &c08run{w: w, acked: map[int]uint64{}, dts: make([]*bed.DT, 4)}
+	for i := 0; i < 4; i++ {
 		w.cls = append(w.cls, w.b.NewClient("colA", fmt.Sprintf("c%d", i)))
 	}
 	var mu sync.Mutex
@@ -160,8 +175,11 @@ func c08Execute(c *core.Case, variant, k int, kind string, log bool) (*c08run, s
 		switch st.kind {
 		case "open":
 			mode := bed.Subscribe
-			if st.cli == 0 {
+			if st.cli == 0 || st.cli == 3 {
 				mode = bed.Create
+			}
+			if v.soc && st.cli < 3 {
+				mode = bed.SubscribeOrCreate
 			}
 			run.dts[st.cli] = cl.Open("k", v.typ, mode)
 			for try := 0; try < 4; try++ {
@@ -292,13 +310,15 @@ func runC08(c *core.Case) *core.Result {
 		for _, o := range run.outcomes {
 			var st int
 			var rest string
-			if n, _ := fmt.Sscanf(o, "step%d:%s", &st, &rest); n == 2 && st > faultStep && !strings.HasSuffix(rest, "=ok") {
+			if n, _ := fmt.Sscanf(o, "step%d:%s", &st, &rest); n == 2 && st > faultStep && !strings.HasSuffix(rest, "=ok") && !strings.HasPrefix(rest, "c3=") {
 				c.Count("error_replies_in_script_after_fault", 1)
 				c.Step("after the fault: %s", o)
 			}
 		}
 	}
 	errsBefore := w.errPacks + w.rpcErrs
+	dup := w.cls[3]
+	w.cls = w.cls[:3] // the refused creator is expected to be answered with errors: it retries separately below
 	ok, sig, msg := w.settle(6)
 	if sig != "" {
 		return verdict(c, where, sig, msg)
@@ -306,6 +326,15 @@ func runC08(c *core.Case) *core.Result {
 	if n := w.errPacks + w.rpcErrs - errsBefore; n > 0 {
 		c.Count("error_replies_during_fault_free_retries", int64(n))
 	}
+	if run.dts[3] != nil {
+		if _, sig, msg := w.sync(dup); sig != "" {
+			return verdict(c, where, sig, msg)
+		}
+		if !w.idle() {
+			return c.Inconclusive("server side did not become idle")
+		}
+	}
+	w.cls = append(w.cls, dup)
 	if !ok {
 		return c.Violation(where+"no-recovery", "after the fault (%s, outcomes %v) six rounds of retries by all clients do not reach quiescence: some sync keeps failing or something is always left to push or pull", run.faultHit.Key(), run.outcomes)
 	}
@@ -334,7 +363,28 @@ func runC08(c *core.Case) *core.Result {
 	}
 	// every operation issued on a subscribed datatype is stored exactly once (CheckLog has
 	// established per-client sequence order without gaps or repeats)
+	ndocs := 0
+	for _, x := range w.b.Datatypes() {
+		if x.Key == "k" && x.CollectionNum == w.colNum {
+			ndocs++
+		}
+	}
+	if ndocs != 1 {
+		return c.Violation(where+"several-datatype-docs", "after recovery %d datatype documents are stored for collection %d key \"k\" (outcomes %v)", ndocs, w.colNum, run.outcomes)
+	}
 	for ci, d := range run.dts {
+		if ci == 3 {
+			if d != nil && d.DT.GetState() == model.StateOfDatatype_SUBSCRIBED {
+				return c.Violation(where+"duplicate-create-accepted", "client c3 asked to Create the key that already existed and ended up subscribed (outcomes %v)", run.outcomes)
+			}
+			if d != nil {
+				if errs, _, _ := d.Handler(); len(errs) == 0 {
+					return c.Violation(where+"duplicate-create-not-reported", "client c3 asked to Create the key that already existed; its error handler was never called (outcomes %v)", run.outcomes)
+				}
+				c.Count("refused_duplicate_creates", 1)
+			}
+			continue
+		}
 		if d == nil || d.DT.GetState() != model.StateOfDatatype_SUBSCRIBED {
 			return c.Violation(where+"client-not-recovered", "client c%d is not subscribed after recovery (state %v)", ci, d.DT.GetState())
 		}
